@@ -312,6 +312,9 @@ DIRECTED = [
     ("all(y > 1 for y in xs if y != 5 if 10 // (y - 5) < 100)", ["xs"], {"xs": [7, 5, 0]}),
     ("all(len(v) < 3 for v in [xs, ys])", ["xs", "ys"], {"xs": list(range(40)), "ys": [1]}),
     ("all(v != s for v in [CS, s])", ["s"], {"s": "abcxyz" * 12}),
+    # an unknown value handed to a tolerant callee by keyword: the callee is not run with a stand-in
+    ("tag(v=id) > 1000", ["id"], {"id": None}), ("tag(v=id, w=x) + tag(w=n, v=G) > 1000", ["id", "x", "n", "G"], {"id": None, "G": None}),
+    ("sum(tag(v=y) for y in xs) > 1000", ["xs"], {"xs": [1, 2]}), ("[tag(v=y, w=x) for y in xs] == []", ["xs", "x"], {"xs": [3]}),
     ("all(y for y in xs) and len(xs) > 1000", ["xs"], {"xs": [1, 0, 2]}),
     ("all(c.strip() for c in [s, CS]) and x > 0", ["s", "x"], {"s": "  "}),
     ("not all(y - 5 for y in xs) and len(xs) > 1000", ["xs"], {"xs": [1, 5]}),
